@@ -44,7 +44,8 @@ type datapath interface {
 	SendEndMarkers(endMarkerList *[][]byte) error
 	/* write pdr/far/qer to datapath */
 	// "master" function to send create/update/delete messages to UPF.
-	// "newRules" PacketForwardingRules are only used for update messages to UPF.
+	// "newRules" PacketForwardingRules are the created / updated rules for update messages to UPF;
+	// for delete messages they are the rules that remain in the session (empty if the session goes).
 	// TODO: we should have better CRUD API, with a single function per message type.
 	SendMsgToUPF(method upfMsgType, all PacketForwardingRules, newRules PacketForwardingRules) uint8
 	/* check of communication channel to datapath is setup */
